@@ -37,6 +37,19 @@ def sys_link(q=20, t=200, quick=True):
             "quick": {"cases": q, "shards": 12, "extra": []} if quick else None,
             "thorough": {"cases": t, "shards": 16, "extra": []}}
 
+def rpc(clauses):
+    """component rpc (harness/src/rpc.rs, model M9 HqModel/Rpc, driver hqm-rpc): the REAL tako server over TCP (server_start,
+    worker_rpc_loop); hand-made workers register and their connection ends in each of 7 ways (clean close, close inside a frame,
+    undecodable frame, Stop(reason) x3, silence) x task assigned before or not x another worker connected or not = 28 rows, all
+    of them in BOTH tiers; announced loss reason, removal, re-send of the assigned task and survival of a later submit + scheduling
+    round are compared with the decision table"""
+    return {"component": "rpc", "driver": "hqm-rpc", "tags": ["lost", "removed", "resent", "alive"], "clauses": clauses,
+            "quick": {"cases": 2, "shards": 14, "extra": []}, "thorough": {"cases": 2, "shards": 14, "extra": []}}
+
+RPC_NOTE = ("c09_conn_end_* / c07_conn_end_failure: model M9 is a decision table over the ways a worker connection can end, tied to the real "
+            "worker_rpc_loop by component rpc (all 28 rows executed on every run over real TCP connections); timing (heartbeat period, the "
+            "500 ms check interval) and the socket layer are the real ones and are not modelled")
+
 SYSW_CLAUSES = ["sysw.", "c06.single", "c08.cancel_sent"]
 
 def sysw(tags, q=13, t=100, quick=True):
@@ -144,8 +157,11 @@ PROPS = {
                   "job-layer model emits, c06_restart_emitted; without it false: c06_restart_reuse_witness; real ids come from counters restored "
                   "above every id in the journal, C11)"]),
     "C07": entry("C07", ["c07_crash_decision", "c07_unlimited_never_fails", "c07_stop_is_no_crash", "c07_job_layer", "c07_crash_counter_step",
-                         "c07_crash_counter_mono", "c07_crash_only_running_on_lost", "c07_restart", "c07_restart_emitted", "c07_crashes_step"],
-                 [core(["cb", "t", "q", "msg"], ["c07.", "core.hyp"]), job(["ev", "tasks", "job", "ret"], ["c07."]), journal(["c07.restart"])]),
+                         "c07_crash_counter_mono", "c07_crash_only_running_on_lost", "c07_restart", "c07_restart_emitted", "c07_crashes_step",
+                         "@HqModel.Rpc.c07_conn_end_failure"],
+                 [core(["cb", "t", "q", "msg"], ["c07.", "core.hyp"]), job(["ev", "tasks", "job", "ret"], ["c07."]), journal(["c07.restart"]),
+                  rpc(["c09.conn"])],
+                 [RPC_NOTE]),
     "C08": entry("C08", ["c08_all_terminal", "c08_idempotent", "c08_other_jobs", "c08_core_forgets", "c08_core_forgets_reachable",
                          "@HqModel.Sys.sys_cancel_final", "@HqModel.Sys.sys_cancel_no_callback", "@HqModel.SysW.sysw_cancel_final",
                          "@HqModel.SysW.sysw_c08_cancel_sent"],
@@ -158,13 +174,14 @@ PROPS = {
                          "@HqModel.Sys.sys_run_no_job_panic", "@HqModel.Sys.sys_started_running", "@HqModel.Sys.sys_outcome_once",
                          "@HqModel.SysW.sysw_fin_proto", "@HqModel.SysW.sysw_fin_proto_head", "@HqModel.SysW.sysw_fin_view",
                          "@HqModel.SysW.sysw_pipeline", "@HqModel.SysW.sysw_no_job_panic", "@HqModel.SysW.sysw_run_no_job_panic",
-                         "@HqModel.SysW.sysw_started_running", "@HqModel.SysW.sysw_outcome_once", "@HqModel.SysW.sysw_inv"],
+                         "@HqModel.SysW.sysw_started_running", "@HqModel.SysW.sysw_outcome_once", "@HqModel.SysW.sysw_inv",
+                         "@HqModel.Rpc.c09_conn_end_removes", "@HqModel.Rpc.c09_conn_end_resends"],
                  [job(["ev", "resp", "ret", "core", "job", "tasks", "live"], ["c09."]),
                   core(["msg", "cb", "flag", "t", "w", "q", "rd"], ["c09."]),
                   exhaust("core", ["msg", "cb", "flag", "t", "w", "q", "rd"], ["c09."]),
                   exhaust("job", ["ev", "resp", "ret", "core", "job", "tasks", "live"], ["c09."]), sys_link(),
-                  sysw(None), sysw_exhaust(None)],
-                 [SYS_NOTE, SYSW_NOTE, "a panic inside an unmodelled dependency (tokio, HiGHS, bincode) is outside the claim"]),
+                  sysw(None), sysw_exhaust(None), rpc(["c09."])],
+                 [SYS_NOTE, SYSW_NOTE, RPC_NOTE, "a panic inside an unmodelled dependency (tokio, HiGHS, bincode) is outside the claim"]),
     "C14": entry("C14", ["c14_decision", "c14_abort_all", "@HqModel.Sys.sys_max_fails", "@HqModel.SysW.sysw_max_fails"],
                  [job(["ret", "ev", "tasks", "job"], ["c14."]), core(["msg", "cb", "t"], ["c14."]), sys_link(quick=False)],
                  [SYS_NOTE, SYSW_NOTE]),
